@@ -341,6 +341,21 @@ def op_serialize(ctx, a):
     return {'text': text, 'back': cval(encode_doc(back))}
 
 
+def op_circuit_serialize(ctx, a):
+    """the circuit-level serialiser (text only: its YAML form is not loadable, which is outside the statement)"""
+    from CircuitCalculator.Circuit import dump_load as cdl
+    c = ctx.cir(a.get('which', 0)) if a.get('group') != 'dynamic' else ctx.dyn(a.get('which', 0))
+    return {'text': cdl.serialize(c, a['fmt'])}
+
+
+def op_serialize_dictified(ctx, a):
+    """the generic serialiser on a dictified circuit (holds tuples and, for complex sources, complex numbers)"""
+    from CircuitCalculator import dump_load
+    from CircuitCalculator.Circuit import dump_load as cdl
+    d = cdl.dictify_circuit(ctx.cir(a.get('which', 0)))
+    return {'text': dump_load.serialize(d, a['fmt'])}
+
+
 def op_undictify(ctx, a):
     from CircuitCalculator import dump_load
     enc = ctx.doc.get('encoded')
@@ -350,7 +365,8 @@ def op_undictify(ctx, a):
 OPS = {'solve': op_solve, 'solve_reref': op_solve_reref, 'impedance': op_impedance, 'ocv': op_ocv, 'element_impedance': op_element_impedance, 'transformer': op_transformer,
        'transform': op_transform, 'dc': op_dc, 'complex': op_complex, 'time': op_time, 'frequency': op_frequency, 'state_space': op_state_space,
        'nodal_ssm': op_nodal_ssm, 'transient': op_transient, 'load_network': op_load_network, 'to_complex': op_to_complex,
-       'circuit_load': op_circuit_load, 'serialize': op_serialize, 'undictify': op_undictify}
+       'circuit_load': op_circuit_load, 'serialize': op_serialize, 'undictify': op_undictify,
+       'circuit_serialize': op_circuit_serialize, 'serialize_dictified': op_serialize_dictified}
 SHARED_ARG_OPS = {'transformer', 'nodal_ssm', 'load_network', 'to_complex', 'serialize', 'undictify', 'circuit_load'}
 
 
@@ -438,8 +454,12 @@ TRANSFORMERS = ['remove_short_circuit_elements', 'short_circuitify_voltage_sourc
 def step(draw, w0):
     op = draw(st.sampled_from(list(OPS) + ['transformer', 'transformer', 'load_network', 'to_complex', 'serialize', 'solve']))
     a = {}
-    if op in ('transform', 'dc', 'complex', 'time', 'frequency', 'state_space', 'nodal_ssm', 'transient'):
+    if op in ('transform', 'dc', 'complex', 'time', 'frequency', 'state_space', 'nodal_ssm', 'transient', 'circuit_serialize', 'serialize_dictified'):
         a['which'] = draw(st.sampled_from([0, 1]))
+    if op in ('circuit_serialize', 'serialize_dictified'):
+        a['fmt'] = draw(st.sampled_from(['json', 'yaml', 'yaml']))
+    if op == 'circuit_serialize':
+        a['group'] = draw(st.sampled_from(['phasor', 'dynamic']))
     if op in ('solve', 'solve_reref', 'impedance', 'ocv', 'element_impedance', 'transformer'):
         a['i'] = draw(st.sampled_from([0, 1]))
         a['p'] = draw(st.sampled_from(range(6)))
